@@ -286,20 +286,34 @@ META = {
                 'setRoutingCheckpoints modelled as "free all old vertices, clear the list, allocate k new") every entry of a connector\'s '
                 'checkpoint-vertex list is an allocated vertex of an allocated connector, no vertex is in two lists or twice in one, every '
                 'allocated vertex is in some list, vertex ids are fresh, set / replace / clear / reroute / ~ConnRef / ~Router never touch a freed '
-                'vertex and ~Router leaves no vertex allocated. The code variants before the F-k / F-l repairs and the variant of '
-                'setRoutingCheckpoints that keeps the freed vertices in the list are refuted by computed witnesses. The model is tied to the '
-                'code by correspondence (ownership state incl. checkpoint vertices per connector after every API call, model vs real Router). '
+                'vertex and ~Router leaves no vertex allocated; (connection-pin layer, ops PNewPin = new ShapeConnectionPin on a shape or junction, '
+                'PDelPin = delete pin; ~Obstacle deletes the pins in its set) every entry of a pin set is an allocated pin of an allocated owner, no '
+                'pin is in two sets, every allocated pin is in a set (so allocated pins = pin vertices in the router\'s list = sum of the set sizes), '
+                'no pin is dereferenced or freed after it was freed, ~Router leaves no pin allocated. The code variants before the F-k / F-l repairs and the variant of '
+                'setRoutingCheckpoints that keeps the freed vertices in the list, and the variant in which a second pin of an owner is not inserted '
+                'into the owner\'s set (C15_second_pin_not_owned_refuted: it is still allocated after ~Router) are refuted by computed witnesses. '
+                'The model is tied to the code by correspondence (ownership state incl. checkpoint vertices per connector, size of every active '
+                'obstacle\'s pin set and the number of pin vertices after every API call, model vs real Router). '
                 'SAMPLED, not proved: heap safety, UB, assertions and leaks of the C++ of all five libraries - legal libavoid lifecycle '
                 'histories and, for libvpsc / libcola / libtopology / libdialect / libavoid\'s solver copy, inputs from the other properties\' '
                 'generators through their harnesses, all under ASan+UBSan+LSan, one process per input.',
-        'design_ref': 'DESIGN.md 5.15, 9.3, 9.12'},
+        'design_ref': 'DESIGN.md 5.15, 9.3, 9.12, 9.21'},
     'level_note': 'Trusted: Coq kernel; extraction; the hand-written model LifecycleModel.v (libavoid Router only; rerouting is over-approximated as '
                   '"every active connector dereferences all its checkpoint vertices whenever a transaction did something"); sanitizer runtime as the '
                   'observer of freed/dangling/leaked memory; generator domain = documented preconditions (no add+delete of one object in one '
-                  'transaction, no use of an object after its delete call, no connector from a junction to itself - also not via setEndpoint). '
+                  'transaction, no use of an object after its delete call, no connector from a junction to itself - also not via setEndpoint; pins: '
+                  'no two pins of one owner that agree in class, directions, both offsets and inside offset (the set order calls them equivalent), '
+                  'no `delete pin` after the owner was handed to deleteShape / deleteJunction, no connector with both ends on one shape when an '
+                  'explicit pin class is involved; proportional offsets only, no setConnectionCost, no shape resize). The pin ops leave the core and '
+                  'checkpoint state unchanged in the model (the processTransaction they trigger outside transactions finds an empty core queue; the '
+                  'ConnectionPinChange markers are not modelled); ConnEnd::freeActivePin (detaching connector ends from a deleted pin) is not modelled '
+                  'as state - the end stays a follower of the shape - so "a deleted pin is never used again by a connector end" is observed by the '
+                  'sanitizers only. The harness drops its own handles at `Q`, so that whatever ~Router failed to free is unreachable and LSan reports it. '
                   'Library sweep (checks/c15sweep.py): no model, no proof; units vpsc.rect (removeoverlaps thirdPass false/true, fixed sets, '
                   'generateX/YConstraints), vpsc.solver (IncSolver + static Solver, histories, object re-use), avoid.vpsc, cola.cc (all compound '
                   'constraints, FD and majorization layouts, every run-axis mode, object re-use), cola.nonoverlap (clusters), cola.paths, topology, '
+                  'topology.cycle (harness/c15_topo_cycle.cpp: cyclic cluster-boundary edges built by the client or by makeFeasible() for ConvexClusters, '
+                  'used in a layout, freed by the client or by freeAssociatedObjects(); open-edge control), '
                   'dialect.sep, dialect.peel, dialect.tree, dialect.plan, dialect.hola. Limits: harness modes that fork and _exit (c13 scenes, c18 tglf, '
                   'c19 planarise) cannot show leaks; c13 layout mode runs with leak detection off (the harness does not free its scene); c20_layout '
                   'is not used (it replaces operator new); libtopology self-check assertions in the scene / layout modes are left to C13\'s classifiers '
